@@ -33,7 +33,7 @@ static void run_case(std::ostream& os, uint64_t s0, long long id, const std::str
   guarded(os, what, 120, [&](std::ostream& o) { run_case_body(o, s0, id, fam, S, C, emb, npts, cfg, reunion, nexec); });
   nexec += ((cfg == "lite" || cfg == "batchlite") ? 16 : 64) * (cfg == "notree" ? 1 : 2);   // executions happen in the child; count nominally
 }
-static bool g_gpcert = false, g_xtra = false, g_light = false; static std::vector<int> g_cts, g_frs;
+static bool g_loose = false, g_gpcert = false, g_xtra = false, g_light = false; static std::vector<int> g_cts, g_frs;
 // small extra subject triangles, far to the right of the input, one vertex of each placed k units (|k| <= 9) above / below the y of a
 // crossing of two embedded input edges: unrelated geometry that puts a scanline right next to an intersection point
 static void add_extras(Rng& pr, const Paths64& S, const Paths64& C, const Emb& emb, Paths64& ES, std::vector<std::vector<long long>>& boxes) {
@@ -65,8 +65,9 @@ static void run_case_body(std::ostream& os, uint64_t s0, long long id, const std
   Rng pr(hash_paths(all) ^ s0);   // per-case stream: a replay of this single case (same --seed) picks the same points
   int ps = 1; std::vector<Point64> pts = sample_pts(pr, all, rect, npts, ps);
   Ev ce("Case"); ce.kn("id", id).ks("fam", fam).kn("emb", emb.id).kn("ps", ps).kv("subj", jpaths(S)).kv("clip", jpaths(C)).kv("pts", jpath(pts));
-  if (g_gpcert) ce.kn("gpcert", gp_native(all, 3) ? 1 : 0);
-  if (g_light) ce.kn("light", 1);
+  if (g_loose) ce.kn("nogp", 1).kn("loose", 1);
+  else if (g_gpcert) ce.kn("gpcert", gp_native(all, 3) ? 1 : 0);
+  if (g_light || g_loose) ce.kn("light", 1);
   Paths64 ES = emb_paths(emb, S), EC = emb_paths(emb, C), none;
   std::vector<std::vector<long long>> boxes;
   if (g_xtra && !rect) { add_extras(pr, S, C, emb, ES, boxes); if (!boxes.empty()) ce.kv("extra", jarr(boxes.begin(), boxes.end(), [](const std::vector<long long>& b) { return jints(b); })); }
@@ -129,6 +130,7 @@ static int cmd_bool(const Args& a) {
   Paths64 S, C;
   g_gpcert = argi(a, "gpcert", 0) != 0; g_xtra = argi(a, "xtra", 0) != 0; g_light = argi(a, "light", 0) != 0;
   for (long long v : argl(a, "cts", "")) g_cts.push_back((int)v); for (long long v : argl(a, "frs", "")) g_frs.push_back((int)v);
+  gp_filter_t() = (int)argi(a, "gpt", 3); g_loose = gp_filter_t() == 0;
   if (fam == "gps") { const int64_t off = argi(a, "off", 0);   // off: shift the lattice (negative coordinates: truncation towards zero behaves differently)
     for (long long i = 0; i < n; ++i) if (gen_gps(r, R, (int)argi(a, "maxpaths", 2), (int)argi(a, "maxv", 6), S, C)) { if (off) for (auto* ps : {&S, &C}) for (auto& p : *ps) for (auto& q : p) { q.x += off; q.y += off; } emit(S, C); } }
   else if (fam == "ladder") { for (int ws = -3; ws <= 3; ++ws) for (int wc = -3; wc <= 3; ++wc) for (int d = 0; d < 2; ++d) { gen_ladder(ws, wc, d, S, C); emit(S, C); } }
